@@ -11,6 +11,24 @@ CHECKS = {
  "C02": dict(engine="hypothesis-given", technique="generated plasma states / tables / windows; oracles: total on covering window, bin-average by grid nesting, in-window fraction vs aligned reference grid, absolute erf / hyp2f1 bins from documented formulas, pi+sigma=no, linearity",
              text="For each of the 7 line-shape classes, generated states (T<=0, flow, B at a chosen angle, un-normalised view), tables and spectral windows (containing / cutting / beside / one bin / fine). Decides normalisation (1e-9 R for Gaussian-built shapes), bin averaging (nesting), in-window fraction, polarisation split and stated ratios, zero-width. Stark is decided to 3e-4 R with the default integrator on bins <= FWHM/2 and to 2e-6 R with a tight integrator; coarser Stark bins are a recorded known finding.",
              ref="DESIGN.md section 3, C02"),
+ "C03": dict(engine="hypothesis-given", technique="generated compositions and analytic mock rates; oracle: documented formulas re-evaluated in plain Python (scipy.quad for bremsstrahlung), exact guards, metamorphic linearity",
+             text="Passive models (ExcitationLine, RecombinationLine, ThermalCXLine, TotalRadiatedPower, Bremsstrahlung) are called directly on real Plasma/Species objects with parameterised mock rates that depend on every argument and key. Window totals must equal the documented expressions (1e-9; bremsstrahlung per bin 1e-4 vs scipy.quad of Hutchinson 5.3.40), non-positive dependencies give exactly nothing, output is non-negative and linear in each density.",
+             ref="DESIGN.md section 3, C03"),
+ "C05": dict(engine="hypothesis-given", technique="generated beam/plasma states with analytic mock beam rates; oracle: statement's population-weighted mean / charged sum in plain Python, argument logging, min<=q<=max",
+             text="BeamCXLine and BeamEmissionLine emission() are called directly with mock rates that depend on every argument and key; window totals must equal (1/4pi) n_b n_r q with the population-weighted mean q (bounded by the individual coefficients) and (1/4pi) n_b sum Z_i n_i q_i; the arguments each coefficient receives (interaction energy, temperature, total ion density, Z_eff, |B|, equivalent density) are compared with an independent evaluation; exact zeros for zero beam/receiver density.",
+             ref="DESIGN.md section 3, C05"),
+ "C11": dict(engine="hypothesis-given", technique="generated matrices (rank-deficient, zero rows/columns); oracles: independent numpy SART reference, KKT certificate for NNLS, normal equations for LSQ/SVD",
+             text="SART / constrained SART are compared with a 30-line numpy transcription of the documented update rule (iterate and convergence list, 1e-10), fixed points and non-negativity; regularised NNLS is certified by the KKT conditions on the stacked system, LSQ and SVD by the normal equations (and minimum norm), reported residual norms are recomputed.",
+             ref="DESIGN.md section 3, C11"),
+ "C13": dict(engine="hypothesis-given", technique="recording injective Python callables wrapped by each mapper/sampler; oracle: exact mapped argument (Fraction arithmetic for periodic), own rotation matrices, rational crossing-number polygon test",
+             text="Every coordinate-mapping wrapper, clamp, slice, swizzle, periodic transform, polygon mask and sampler is fed generated edge-class arguments; the argument the wrapped function receives and the value returned are compared with the mathematically mapped ones (exactly where the mapping is exact, within stated ulps for hypot/atan2).",
+             ref="DESIGN.md section 3, C13"),
+ "C18": dict(engine="hypothesis-given+hypothesis-stateful", technique="quadrature of energy density vs E_p/(c tau); segment tiling invariant; erf/overlap oracle for spectra; stateful setter sequences vs freshly constructed object",
+             text="Laser profiles: cross-section (or volume) integrals by independent quadrature must equal the documented energy; generated segments must tile [0, L] exactly once; spectra: per-bin power vs normal-CDF / overlap integrals; history: RuleBasedStateMachine over every public setter, every observable and accessor compared with a fresh object built from the final parameters (accessors also with the parameters themselves).",
+             ref="DESIGN.md section 3, C18"),
+ "C20": dict(engine="hypothesis-given", technique="polynomial exactness of the stencils; metamorphic anisotropy-1 identity on every row; refinement study against the continuous operator",
+             text="Derivative operators are checked for exactness on constants / linear / bilinear / quadratic fields in the cells the statement names; the ADMT operator must be finite, annihilate constants, equal (Dxx+Dyy+diag(1/R)Dx)*sqrt(dx dy) entrywise for anisotropy 1 on any flux map, and converge (error ratio >= 1.6 per halving, < 5 % on the finest grid) to the continuous field-aligned diffusion operator for smooth flux maps.",
+             ref="DESIGN.md section 3, C20"),
  "C04": dict(engine="hypothesis-given", technique="generated beams/plasmas/stopping tables; oracle: independent cross-section quadrature vs particle-rate * exp(-tau) with tau by scipy.quad over own transforms; RK4 streamline invariants",
              text="Generated beam parameters, placements, attenuator settings, 1-3 ion species with non-uniform profiles and analytic stopping coefficients. The cross-section integral of Beam.density (48x48 Gauss-Legendre; polar rule inside the clamp ellipse) must equal P/(E m)/v * exp(-tau(z)) within the a-priori error bound of the documented trapezoid/linear-interpolation scheme; plus monotone on-axis decay, zeros outside [0,L] and outside the clamp, unit direction field whose streamlines keep x/sigma_x and y/sigma_y.",
              ref="DESIGN.md section 3, C04"),
